@@ -1358,6 +1358,11 @@ func (p *sshFxpExtendedPacket) UnmarshalBinary(b []byte) error {
 		return err
 	}
 
+	if !extensionEnabled(p.ExtendedRequest) {
+		// an extension that is not advertised is not served either
+		return fmt.Errorf("packet type %v: %w", p.SpecificPacket, errUnknownExtendedPacket)
+	}
+
 	// specific unmarshalling
 	switch p.ExtendedRequest {
 	case "statvfs@openssh.com":
